@@ -8,6 +8,7 @@ import Driver.SndDrv
 import Driver.SharedDrv
 import Driver.AffDrv
 import Driver.CVDrv
+import Driver.CVAbortDrv
 import Driver.DequeDrv
 import Driver.BarrierDrv
 import Driver.BarrierTDrv
@@ -42,6 +43,7 @@ def dispatch (model : String) (c : Case) : String :=
   | "shared" => SharedDrv.runCase c
   | "aff" => AffDrv.runCase c
   | "cv" => CVDrv.runCase c
+  | "cvabort" => CVAbortDrv.runCase c
   | "deque" => DequeDrv.runCase c
   | "barrier" => BarrierDrv.runCase c
   | "barriert" => BarrierTDrv.runCase c
